@@ -160,7 +160,7 @@ func (p *parser) expectOp(s string) {
 	p.p++
 }
 
-func ParseExpr(src string) (e Expr, err error) {
+func parseExpr0(src string) (e Expr, err error) {
 	toks, err := lex(src)
 	if err != nil {
 		return nil, err
@@ -498,6 +498,7 @@ type AtClause struct {
 type ContractSet struct {
 	Funcs  map[string]*Contract
 	Specs  map[string]*SpecFunc
+	SpecAmbig map[string]string // macro names defined differently in several files
 	Lemmas []*Lemma
 	Files  []string
 	UFs    map[string]*UF
@@ -514,6 +515,20 @@ func (cs *ContractSet) LoadContractFile(path, pkgName string, trusted bool) erro
 		return err
 	}
 	cs.Files = append(cs.Files, path)
+	curFileSpecs = map[string]string{}
+	defer func() { curFileSpecs = nil }()
+	for _, raw := range strings.Split(string(data), "\n") {
+		line := strings.TrimSpace(raw)
+		if strings.HasPrefix(line, "//@") {
+			body := strings.TrimSpace(line[3:])
+			if strings.HasPrefix(body, "spec ") {
+				if op := strings.Index(body, "("); op > 5 {
+					nm := strings.TrimSpace(body[5:op])
+					curFileSpecs[nm] = nm + "@" + filepath.Base(path)
+				}
+			}
+		}
+	}
 	var cur *Contract
 	var curLemma *Lemma
 	lines := strings.Split(string(data), "\n")
@@ -614,7 +629,18 @@ func (cs *ContractSet) LoadContractFile(path, pkgName string, trusted bool) erro
 			if err != nil {
 				return fail(err)
 			}
-			cs.Specs[name] = &SpecFunc{Name: name, Params: params, Body: e, Src: src}
+			sf := &SpecFunc{Name: name, Params: params, Body: e, Src: src}
+			cs.Specs[name+"@"+filepath.Base(path)] = sf
+			if prev, dup := cs.Specs[name]; dup {
+				if prev.Src != src || strings.Join(prev.Params, ",") != strings.Join(params, ",") {
+					if cs.SpecAmbig == nil {
+						cs.SpecAmbig = map[string]string{}
+					}
+					cs.SpecAmbig[name] = "defined differently in several contract files (one of them " + filepath.Base(path) + ")"
+				}
+			} else {
+				cs.Specs[name] = sf
+			}
 		case "lemma":
 			cur = nil
 			op := strings.Index(rest, "(")
@@ -899,4 +925,58 @@ func (cs *ContractSet) SortedKeys() []string {
 	}
 	sort.Strings(ks)
 	return ks
+}
+
+// Spec macros are file-scoped when a file defines them itself: while a contract file is loaded,
+// calls of a macro defined in that same file are bound to that file's definition (mangled name
+// NAME@file). A file that uses a macro it does not define gets the (unique) definition of another
+// file; if several files define the name differently such a use is an error (SpecAmbig).
+var curFileSpecs map[string]string
+
+func ParseExpr(src string) (Expr, error) {
+	e, err := parseExpr0(src)
+	if err == nil && len(curFileSpecs) > 0 {
+		renameSpecCalls(e, curFileSpecs)
+	}
+	return e, err
+}
+
+func renameSpecCalls(x Expr, m map[string]string) {
+	switch n := x.(type) {
+	case *ECall:
+		if nn, ok := m[n.Fn]; ok {
+			n.Fn = nn
+		}
+		for _, a := range n.Args {
+			renameSpecCalls(a, m)
+		}
+	case *EUn:
+		renameSpecCalls(n.X, m)
+	case *EBin:
+		renameSpecCalls(n.X, m)
+		renameSpecCalls(n.Y, m)
+	case *ESel:
+		renameSpecCalls(n.X, m)
+	case *EIndex:
+		renameSpecCalls(n.X, m)
+		renameSpecCalls(n.I, m)
+	case *ESlice:
+		renameSpecCalls(n.X, m)
+		if n.Lo != nil {
+			renameSpecCalls(n.Lo, m)
+		}
+		if n.Hi != nil {
+			renameSpecCalls(n.Hi, m)
+		}
+	case *EQuant:
+		if n.Lo != nil {
+			renameSpecCalls(n.Lo, m)
+		}
+		if n.Hi != nil {
+			renameSpecCalls(n.Hi, m)
+		}
+		renameSpecCalls(n.Body, m)
+	case *ETypeAssert:
+		renameSpecCalls(n.X, m)
+	}
 }
